@@ -548,6 +548,10 @@ PROPS['C08'] = dict(
           'the same agreement for a study whose proto is large (400 parameters, 20 kB of metadata): suggest / trials / '
           'optimal_trials / set_state / delete on an active, aborted or completed study', '5 call kinds x 3 study states x 2 '
           'datastores', no_validate=True),
+        O('C08.early_stop_agree', 'harness.c08_deploy', 'early_stop_agree', 120, 300,
+          'with a deterministic early-stopping algorithm a client asking 1..3 times (later questions are answered from the '
+          'stored decision) gets the same answers and sees the same trial state in all three deployments',
+          'answer True/False x 1..3 questions x trial ACTIVE/STOPPING', no_validate=True),
         O('C08.custom_policy', 'harness.c08_deploy', 'custom_policy', 120, 300,
           'a configured (non-default) policy factory is honoured by all three deployments; a policy that raises (ValueError, '
           'ZeroDivisionError, custom Exception) is reported as the documented RuntimeError in all three and leaves no '
